@@ -135,8 +135,14 @@ def runFrange (ws : List String) : String :=
 def runRpath (ws : List String) : String :=
   let lens := ((kv ws "lens").getD "").splitOn "," |>.filterMap (·.toNat?)
   let k := min (kvNat ws "k" 4) 4
-  let p0 := Path.P.new (Path.totalLen lens)
-  match Path.applyK lens k p0 0 with
+  let pre := ((kv ws "pre").getD "").splitOn "," |>.filterMap (·.toNat?)
+  let base := pre.foldl (· + ·) 0
+  let p0 := Path.P.new (base + Path.totalLen lens)
+  let r := match Path.applyStatics pre p0 0 with
+    | .panic s => Outcome.panic s
+    | .err e => .err e
+    | .ok (p1, _) => Path.applyK lens base k p1 0
+  match r with
   | .panic _ => "PANIC"
   | .err e => "err:" ++ e
   | .ok (p, m) =>
